@@ -137,12 +137,21 @@ func propC05(w *World, r *Report) {
 
 	// ---- safety of the interpreter (shared with C02)
 	var fns []*ssa.Function
-	for f := range w.libReach([]*ssa.Function{fn}) {
+	scopeRoots := []*ssa.Function{fn}
+	// the subroutine tables the interpreter calls into are read by readIndex
+	// (tables of up to 65535 entries, crossing both bias thresholds)
+	if ri := w.Func("cff.readIndex"); ri != nil {
+		scopeRoots = append(scopeRoots, ri)
+	} else {
+		r.Fatal("cff.readIndex does not resolve")
+	}
+	for f := range w.libReach(scopeRoots) {
 		if strings.HasSuffix(fnPkgPath(f), "/cff") {
 			fns = append(fns, f)
 		}
 	}
 	sort.Slice(fns, func(i, j int) bool { return fnName(fns[i]) < fnName(fns[j]) })
+	r.Conds["monotone-stores:cff.readIndex"] = condMonotoneStores(w, br, "cff.readIndex", false)
 	r.Conds["charstring-budget"] = condGlobalBudget(w, "(*cff.decodeInfo).decodeCharString")
 	RunBounds(w, r, "bounds", br, fns)
 	runLoopTerm(w, r, br, fns, true)
